@@ -116,6 +116,7 @@ def check(case, rec):
                         (axis, refs[0].ids(axis)[0]))
     r = run()
     got = observe.snapshot(r)
+    observe.check_lookups(r, got, "concat result")
     for k, (t, s) in enumerate(zip(tabs, snaps)):
         if observe.snapshot(t) != s:
             raise Violation("operand-modified", "operand %d changed" % k)
